@@ -200,6 +200,9 @@ package auth
 //@   ensures !(newu.Admin && len(newu.PushAccess) == 0) ==> sameStr(m.m[newu.Name].PushAccess, newu.PushAccess)
 //@   ensures len(m.l) == old(len(m.l)) || (len(m.l) == old(len(m.l)) + 1 && m.l[old(len(m.l))] == newu && m.m[newu.Name] == newu)
 //@   ensures len(m.saves) >= old(len(m.saves)) && len(m.removes) <= old(len(m.removes))
+// an update happens IN PLACE: every entry the table held before is still the same object afterwards (sessions keep the
+// *User they authenticated with - a replaced object would leave them on the rights as they were when it was fetched)
+//@   ensures forallk(kk, old(mapKeyPresent(m.m, kk)) ==> mapKeyPresent(m.m, kk) && mapValAtKey(m.m, kk).(*User) == old(mapValAtKey(m.m, kk).(*User)))
 
 // Flush: hands the full list and the pending changes to the provider; the pending lists are cleared only on success
 //@ extern func (p UserProvider) Flush(full []*User, saves []*User, removes []*User) (err error)
